@@ -123,7 +123,7 @@ theorem routeMatch_correct (re : Regex) (sem : Semantics) (m : HTTPMatch) (req :
     (hwf : req.wf = true) (hw : withoutOK re m req = true) :
     (translateRouteMatch sem (some m)).eval re req = matchHolds re sem m req := by
   unfold translateRouteMatch RouteMatch.eval matchHolds
-  simp only [List.all_append, all_sortByName, List.all_map]
+  simp only [List.all_append, all_sortByName, all_sortQByName, List.all_map]
   rw [uri_correct re sem m.ignoreUriCase m.uri req.path hwf,
       pseudo_correct re req ":method" req.method m.method (header_method req),
       pseudo_correct re req ":authority" req.authority m.authority (header_authority req),
